@@ -597,4 +597,5 @@ func runUnit(w *casefile.Writer, r *rng.R, tier string) {
 	unitIDs(w, r.Fork(), 200*k)
 	unitDocs(w, r.Fork(), 200*k)
 	unitTokTab(w, r.Fork(), 90*k)
+	unitBytes(w, r.Fork(), k)
 }
